@@ -1061,6 +1061,44 @@ func c09Purity(w *W) {
 	if x.deadlock {
 		w.Viol("C09:purity:blocked", "an accessor left the library blocked", nil)
 	}
+	// option state set through one handle does not show through another: objects returned by navigation, conversion
+	// and the constructors are handles of their own (the only per-object option is the eight-character convention)
+	for _, mo := range [][6]int{{2023, 5, 9, 23, 30, 0}, {2020, 5, 22, 23, 59, 59}, {1582, 10, 15, 23, 0, 0}} {
+		derive := map[string]func(l *calendar.Lunar) *calendar.EightChar{
+			"l.Next(0)":               func(l *calendar.Lunar) *calendar.EightChar { return l.Next(0).GetEightChar() },
+			"l.Next(1).Next(-1)":      func(l *calendar.Lunar) *calendar.EightChar { return l.Next(1).Next(-1).GetEightChar() },
+			"l.GetSolar().GetLunar()": func(l *calendar.Lunar) *calendar.EightChar { return l.GetSolar().GetLunar().GetEightChar() },
+			"NewLunarFromSolar(l.GetSolar())": func(l *calendar.Lunar) *calendar.EightChar {
+				return calendar.NewLunarFromSolar(l.GetSolar()).GetEightChar()
+			},
+			"NewEightChar(l)": func(l *calendar.Lunar) *calendar.EightChar { return calendar.NewEightChar(l) },
+			"l.GetSolar().NextDay(0).GetLunar()": func(l *calendar.Lunar) *calendar.EightChar {
+				return l.GetSolar().NextDay(0).GetLunar().GetEightChar()
+			},
+		}
+		for name, f := range derive {
+			msg, p := try(func() {
+				l := calendar.NewSolar(mo[0], mo[1], mo[2], mo[3], mo[4], mo[5]).GetLunar()
+				before := fmt.Sprint(l.GetEightChar().GetSect(), l.GetEightChar().String(), l.GetBaZi())
+				f(l).SetSect(1)
+				after := fmt.Sprint(l.GetEightChar().GetSect(), l.GetEightChar().String(), l.GetBaZi())
+				if before != after {
+					w.Viol("C09:option-leaks-between-handles:"+name, fmt.Sprintf("setting the convention on the eight characters of %s changed what l itself answers at %v: %s -> %s", name, mo, before, after), name)
+				}
+				l2 := calendar.NewSolar(mo[0], mo[1], mo[2], mo[3], mo[4], mo[5]).GetLunar()
+				l2.GetEightChar().SetSect(1)
+				if name != "NewEightChar(l)" {
+					if g := f(l2).GetSect(); g != 2 {
+						w.Viol("C09:option-leaks-between-handles:"+name+":inherited", fmt.Sprintf("%s of a date whose convention was set to 1 comes with convention %d instead of the default 2 (at %v)", name, g, mo), name)
+					}
+				}
+				w.R.Evals += 2
+			})
+			if p {
+				w.Viol("C09:option-leaks-between-handles:panic:"+name, msg, name)
+			}
+		}
+	}
 	w.Sample(map[string]interface{}{"object_types": len(sharedObjects()), "check": "deep private-state snapshot before/after every exported zero-argument method"})
 }
 
